@@ -259,13 +259,16 @@ def minimise_and_write(prop, tier, item):
         if vm is None:
             raise HarnessError(f"violation {target} of seed {item['seed']} does not reproduce in-process")
     os.makedirs(os.path.join(VERIF, "replays"), exist_ok=True)
-    path = os.path.join(VERIF, "replays", f"{prop}-{item['seed']}.json")
+    # the tree is part of the name: checks of different trees may run at the same time
+    path = os.path.join(VERIF, "replays", f"{prop}-{item['seed']}-{tree_id()[:8]}.json")
     rec = {"engine": engine, "property": prop, "seed": item["seed"], "index": item["index"], "tier": tier,
            "config": c2, "ops": gen.to_json(o2), "violation": json.loads(json.dumps(vm, default=repr)),
            "class": list(target), "digest": w.digest(), "original_len": len(ops), "minimised_len": len(o2),
            "shrink_executions": nexec, "tree": tree_id()}
-    with open(path, "w") as f:
+    tmp_path = f"{path}.{os.getpid()}.tmp"
+    with open(tmp_path, "w") as f:
         json.dump(rec, f, indent=1, default=repr)
+    os.replace(tmp_path, path)
     # replay in a fresh interpreter must reproduce the same class and digest
     r = subprocess.run([sys.executable, os.path.join(VERIF, "check"), "replay", path, "--quiet"],
                        capture_output=True, text=True, timeout=300)
